@@ -5,9 +5,13 @@
      the coding modes in which they are emitted, have the documented starts and length 8;
    * any consecutive (mod 2^32) numbering with an even first field obeys that rule (used by every
      generator that lets the encoder/autofill number the pictures).
-   The metamorphic facts (padding units/bits, prefix bytes, repeated headers, ... do not change the
-   decoded pictures) are stated over the decoder models of C08/C10 as they land (see DESIGN.md 3 C05)
-   and are otherwise covered by the differential run of tools/harness/C05.py. *)
+   The metamorphic facts (second half of this file; integration with C08 / C01 / C10 / C15,
+   Proofs/IntegTestCases.v + Proofs/IntegStream.v): slice padding bits, padding / auxiliary data
+   units, repeated sequence headers, concatenation, absent next_parse_offset, alternative sequence
+   header encodings do not change what the decoder models observe.  The remaining metamorphic
+   classes (HQ slice prefix bytes' effect on the container, extended-transform flags, slice size
+   scaler, picture CONTENT under stream-level edits) have no model carrying them and are covered by
+   the differential run of tools/harness/C05.py only. *)
 From Coq Require Import ZArith List Bool String.
 From VC2 Require Import Model.PicNums Proofs.PicNumsProofs Gen.TestCaseConsts.
 Import ListNotations.
@@ -42,3 +46,181 @@ Proof. exact consecutive_ok. Qed.
 (* the documented wrap-around case really wraps *)
 Example C05_wraps : In ("wrap_around"%string, consecutive 4294967292 8) picture_numbers_cases_always.
 Proof. vm_compute. right. right. left. reflexivity. Qed.
+
+(* ==========================================================================================
+   Metamorphic lemmas over the existing decoder models (each closed by `exact`)
+   ========================================================================================== *)
+From VC2 Require Import Base.PyZ Gen.StateRec Gen.ParseCodes Corr.C08 Model.Slices Proofs.SlicesProofs Proofs.IntegTestCases.
+From VC2 Require Import Model.SeqHeader Proofs.SeqHeaderProofs.
+From VC2 Require Import Model.Stream Proofs.StreamLift Proofs.IntegStream.
+
+(* (a) test case slice_padding_data.  Model/Slices.v d_slice = the validator's slice reader (C08).
+   Whenever it reads a slice (LD or HQ, any parameters, any bits), the consumed bits split into
+   segments -- Keep (interpreted: prefix bytes, qindex, length fields, coefficients) and Pad (the bits
+   flushed at the end of each bounded block: 2 blocks per LD slice, 3 per HQ slice) -- such that
+   replacing every Pad segment by ARBITRARY bits of the same length, and what follows the slice by
+   anything, gives the same qindex, length fields and coefficient assignments (the transform arrays are
+   a function of these assignments).  From C08's padding_bits_irrelevant / _chroma. *)
+Theorem C05_slice_padding_bits_irrelevant : forall fuel p sx sy bs d,
+  d_slice fuel p sx sy bs = Slices.Ok d ->
+  exists segs,
+    pad_count segs = (if is_ld (sp_st p) then 2%nat else if is_hq (sp_st p) then 3%nat else 0%nat) /\
+    bs = flat segs ++ d_rest d /\
+    forall segs' rest', segs_sim segs segs' ->
+      d_slice fuel p sx sy (flat segs' ++ rest') = Slices.Ok (mk_d_out (d_qindex d) (d_lengths d) (d_writes d) rest').
+Proof. exact slice_padding_irrelevant. Qed.
+
+(* ... and for ALL the slices of a picture (coords = slice_coords) or of a fragment (fragment_coords),
+   read one after the other: the level at which the generator fills every *_block_padding field *)
+Theorem C05_picture_slice_padding_bits_irrelevant : forall fuel p coords bs ds rest,
+  d_slices fuel p coords bs = Slices.Ok (ds, rest) ->
+  exists segs,
+    bs = flat segs ++ rest /\
+    pad_count segs = (List.length coords * (if is_ld (sp_st p) then 2 else if is_hq (sp_st p) then 3 else 0))%nat /\
+    forall segs' rest', segs_sim segs segs' ->
+      exists ds', d_slices fuel p coords (flat segs' ++ rest') = Slices.Ok (ds', rest') /\
+                  map d_writes ds' = map d_writes ds /\ map d_qindex ds' = map d_qindex ds /\
+                  map d_lengths ds' = map d_lengths ds.
+Proof. exact slices_padding_irrelevant. Qed.
+
+(* non-vacuity: an HQ slice whose luma block is 3 bytes long holds its 16 coefficients in 16 bits;
+   the 8 bits that follow are padding: 0x00 and 0xAB decode alike, whereas a changed coefficient bit
+   does not *)
+Example C05_example_slice_padding :
+  let p := mk_case_params [8;4;8;4;1;0;2;1;0;1;232] [0;1] [[0];[0;0;0]] in
+  let w bytes := let bs := bits_of_bytes bytes in
+                 match d_slice (fuel_for bs) p 0 0 bs with Slices.Ok d => Some (d_writes d) | _ => None end in
+  w [5;3;255;255;0;0;0] <> None /\ w [5;3;255;255;171;0;0] = w [5;3;255;255;0;0;0] /\
+  w [5;3;255;127;0;0;0] <> w [5;3;255;255;0;0;0].
+Proof. vm_compute. repeat split; discriminate. Qed.
+
+(* (f) alternative sequence header encodings (test cases source_parameters_encodings): any two headers
+   of the enumeration -- compact or not, on any admissible base video format -- decode to the same
+   video parameters and picture coding mode.  From C15_options_decode_to_target. *)
+Theorem C05_alternative_header_encodings_decode_identically :
+  forall (T : tables) (tbl : ctable) (cf : features) (cands : list Z) (h1 h2 : header),
+  tables_wf T ->
+  In h1 (iter_sequence_headers T tbl cf cands) -> In h2 (iter_sequence_headers T tbl cf cands) ->
+  decode_header T h1 = decode_header T h2.
+Proof.
+  exact (fun T tbl cf cands h1 h2 W H1 H2 =>
+           eq_trans (options_decode_to_target T tbl cf cands h1 W H1)
+                    (eq_sym (options_decode_to_target T tbl cf cands h2 W H2))).
+Qed.
+
+Section C05_stream.
+  (* the stream-level validator model of C01/C10 (Model/Stream.v), for ANY generic / level pattern
+     automata such that the generic pattern starts with a sequence header (as in C01) *)
+  Variable gst : Type.
+  Variable gstart : gst.
+  Variable gstep : gst -> symbol -> option gst.
+  Variable gcomplete : gst -> bool.
+  Variable lst : Type.
+  Variable lstart : Z -> lst.
+  Variable lstep : Z -> lst -> symbol -> option lst.
+  Variable lcomplete : Z -> lst -> bool.
+  Variable level_known : Z -> bool.
+  Hypothesis Hgen : gen_first_is_seqhdr_b gstart gstep = true.
+
+  Notation Vrun := (run gst gstart gstep gcomplete lst lstart lstep lcomplete level_known false).
+  Notation Vobs := (run_obs gst gstart gstep gcomplete lst lstart lstep lcomplete level_known false true
+                            (init_state gst gstart lst)).
+
+  (* (b) test cases padding_data / auxiliary_data (and, with x a repeat of the header, (b')).
+     us = u0 :: a ++ u :: b is an accepted sequence with first unit the header h0; x is a padding or
+     auxiliary data unit (or h0 again) of any length >= 13 with next_parse_offset = its length, put
+     before u with u's previous_parse_offset; u's previous_parse_offset becomes x's length.  Then the
+     new sequence is accepted and the observation run_obs = (verdict, sequences gone through, picture
+     numbers output) is the same -- PROVIDED the level's and the generic data-unit ORDERING patterns
+     admit the new parse code sequence (the automata are abstract here; whether a level's pattern
+     admits padding at that place is C19's subject).  Picture CONTENT is not in this model's
+     observation: `_partial`. *)
+  Theorem C05_padding_and_aux_units_irrelevant_partial : forall u0 h0 a x u b,
+    let us := u0 :: a ++ u :: b in
+    let us' := u0 :: a ++ x :: set_ppo u (u_len x) :: b in
+    u_kind u0 = KSeqHdr h0 ->
+    (u_kind x = KPad \/ u_kind x = KAux) -> u_npo x = u_len x ->
+    PARSE_INFO_HEADER_BYTES <= u_len x -> u_ppo x = u_ppo u ->
+    units_valid level_known us = true -> one_sequence us = true -> Vrun us = Accept ->
+    level_pattern_ok lst lstart lstep lcomplete us' = true -> generic_pattern_ok gst gstart gstep gcomplete us' = true ->
+    Vrun us' = Accept /\ Vobs us' 0 [] = Vobs us 0 [] /\ eos_only_last us' = true.
+  Proof.
+    exact (fun u0 h0 a x u b Ek Hk Hn =>
+             insert_neutral_irrelevant gst gstart gstep gcomplete lst lstart lstep lcomplete level_known Hgen u0 h0 a x u b Ek
+               (conj (match Hk with or_introl e => or_introl e | or_intror e => or_intror (or_introl e) end) Hn)).
+  Qed.
+
+  (* (b') test case repeated_sequence_headers: the IDENTICAL header (same kind, i.e. same bytes id and
+     fields; any length >= 13) repeated before any later data unit *)
+  Theorem C05_repeated_sequence_header_irrelevant_partial : forall u0 h0 a x u b,
+    let us := u0 :: a ++ u :: b in
+    let us' := u0 :: a ++ x :: set_ppo u (u_len x) :: b in
+    u_kind u0 = KSeqHdr h0 ->
+    u_kind x = KSeqHdr h0 -> u_npo x = u_len x ->
+    PARSE_INFO_HEADER_BYTES <= u_len x -> u_ppo x = u_ppo u ->
+    units_valid level_known us = true -> one_sequence us = true -> Vrun us = Accept ->
+    level_pattern_ok lst lstart lstep lcomplete us' = true -> generic_pattern_ok gst gstart gstep gcomplete us' = true ->
+    Vrun us' = Accept /\ Vobs us' 0 [] = Vobs us 0 [] /\ eos_only_last us' = true.
+  Proof.
+    exact (fun u0 h0 a x u b Ek Hk Hn =>
+             insert_neutral_irrelevant gst gstart gstep gcomplete lst lstart lstep lcomplete level_known Hgen u0 h0 a x u b Ek
+               (conj (or_intror (or_intror Hk)) Hn)).
+  Qed.
+
+  (* (d) test case absent_next_parse_offset: next_parse_offset := 0 on every picture and fragment data
+     unit of an accepted sequence: accepted, same observation.  No hypothesis on the patterns (the
+     parse codes do not change).  From the offsets rule of Model/Stream.v via C01_iff. *)
+  Theorem C05_absent_next_parse_offset_irrelevant : forall us,
+    units_valid level_known us = true -> one_sequence us = true -> Vrun us = Accept ->
+    Vrun (map zero_npo us) = Accept /\ Vobs (map zero_npo us) 0 [] = Vobs us 0 [] /\
+    eos_only_last (map zero_npo us) = true.
+  Proof. exact (zero_npo_irrelevant gst gstart gstep gcomplete lst lstart lstep lcomplete level_known Hgen). Qed.
+
+  (* what an accepted sequence outputs is determined by its data units alone (pictures; slice fragments
+     completing a fragmented picture): the fact (b), (b') and (d) rest on *)
+  Theorem C05_accepted_sequence_observation : forall us,
+    units_valid level_known us = true -> one_sequence us = true -> Vrun us = Accept ->
+    Vobs us 0 [] = (Accept, 1, pics_from None (tl us)).
+  Proof. exact (obs_sequence gst gstart gstep gcomplete lst lstart lstep lcomplete level_known Hgen). Qed.
+
+  (* (b), (b'), (d) inside a stream of several sequences: replacing one sequence of an accepted stream by
+     an accepted variant with the same output leaves the whole stream's observation unchanged (C10) *)
+  Theorem C05_variant_inside_stream : forall before sq sq' after,
+    Forall (fun s => eos_only_last s = true) (before ++ [sq] ++ after) ->
+    Forall (fun s => Vrun s = Accept) (before ++ [sq] ++ after) ->
+    eos_only_last sq' = true -> Vrun sq' = Accept -> Vobs sq' 0 [] = Vobs sq 0 [] ->
+    Vobs (List.concat (before ++ [sq'] ++ after)) 0 [] = Vobs (List.concat (before ++ [sq] ++ after)) 0 [].
+  Proof. exact (stream_replace gst gstart gstep gcomplete lst lstart lstep lcomplete level_known). Qed.
+
+  (* (c) test case concatenated sequences: the validator goes through every sequence and outputs the
+     concatenation of what each outputs alone.  = C10_pictures_are_concatenated. *)
+  Theorem C05_concatenation_is_concatenation : forall seqs,
+    Forall (fun s => eos_only_last s = true) seqs -> Forall (fun s => Vrun s = Accept) seqs ->
+    Vobs (List.concat seqs) 0 [] =
+    (Accept, Z.of_nat (List.length seqs),
+     List.concat (List.map (pics_of gst gstart gstep gcomplete lst lstart lstep lcomplete level_known false) seqs)).
+  Proof.
+    exact (fun seqs Hl Ha => pictures_concat gst gstart gstep gcomplete lst lstart lstep lcomplete level_known false seqs Hl Ha 0 []).
+  Qed.
+End C05_stream.
+
+(* non-vacuity on the concrete instance of Props/C01.v (generic automaton "sequence_header .* end_of_sequence",
+   no level restriction): a fragmented picture; a padding unit inserted before the second fragment with
+   corrected offsets; next_parse_offset zeroed -- all accepted, all output picture 7 *)
+Definition C05_ex_gstep (s : Z) (sym : symbol) : option Z :=
+  if s =? 0 then (match sym with SSeqHdr => Some 1 | _ => None end)
+  else match sym with SEos => Some 2 | _ => Some 1 end.
+Definition C05_ex_obs :=
+  run_obs Z 0 C05_ex_gstep (fun s => s =? 2) unit (fun _ => tt) (fun _ _ _ => Some tt) (fun _ _ => true) (fun _ => true) false
+          true (init_state Z 0 unit).
+Example C05_example_stream :
+  let hdr := mkUnit (KSeqHdr (mkHdr 1 3 3 0 0 1)) 20 20 0 in
+  let tp := mkTp 4 4 0 2 1 in
+  let us := [hdr; mkUnit (KFragFirst true 7 tp) 30 30 20; mkUnit (KFragData true 7 1 0 0) 40 40 30;
+             mkUnit (KFragData true 7 1 1 0) 40 40 40; mkUnit KEos 13 0 40] in
+  let us' := [hdr; mkUnit (KFragFirst true 7 tp) 30 30 20; mkUnit (KFragData true 7 1 0 0) 40 40 30;
+              mkUnit KPad 17 17 40; mkUnit (KFragData true 7 1 1 0) 40 40 17; mkUnit KEos 13 0 40] in
+  C05_ex_obs us 0 [] = (Accept, 1, [7]) /\ C05_ex_obs us' 0 [] = (Accept, 1, [7]) /\
+  C05_ex_obs (map zero_npo us) 0 [] = (Accept, 1, [7]) /\
+  map u_npo (map zero_npo us) = [20; 0; 0; 0; 0] /\ pics_from None (tl us) = [7].
+Proof. vm_compute. repeat split; reflexivity. Qed.
